@@ -1223,6 +1223,11 @@ impl ViCut {
 		let Some(var) = self.get_var_mut(&name) else {
 			return Err(format!("Variable {name} not found"))
 		};
+		if let BinOp::Equals = op {
+			// Plain assignment: any value may replace any other
+			*var = value;
+			return Ok(())
+		}
 		match var {
 			Val::Bool(b) => {
 				let Val::Bool(value) = value else {
@@ -1262,7 +1267,7 @@ impl ViCut {
 					}
 				}
 			}
-			_ => unimplemented!()
+			other => return Err(format!("Cannot perform {op} on {} variable {name}", other.display_type()))
 		}
 		Ok(())
 	}
